@@ -438,3 +438,408 @@ Proof.
     (split; [reflexivity|]);
     (intros nch Hch Wi Wo; split; apply wf_insert; assumption).
 Qed.
+
+(** * is_forwarded_payment_prunable: the pruning decision of the heartbeat
+
+    The source's decision for one payment record: no approval ([invoices]) and no issued invoice for
+    the hash, nothing incoming, nothing outgoing.  The model's [prunable] is the same without the
+    issued invoices, which it does not have: the source prunes a record iff the model says
+    [prunable] and there is no issued invoice for the hash. *)
+Lemma gen_is_no_incoming prof p :
+  sum_N (map_values (RoutedPayment_incoming p)) <= U64MAX ->
+  gen_RoutedPayment_is_no_incoming prof p = Val (sum_N (map_values (RoutedPayment_incoming p)) =? 0).
+Proof. intros H. unfold gen_RoutedPayment_is_no_incoming. rewrite sum_p_ok by exact H. reflexivity. Qed.
+
+Lemma gen_is_no_outgoing prof p :
+  sum_N (map_values (RoutedPayment_outgoing p)) <= U64MAX ->
+  gen_RoutedPayment_is_no_outgoing prof p = Val (sum_N (map_values (RoutedPayment_outgoing p)) =? 0).
+Proof. intros H. unfold gen_RoutedPayment_is_no_outgoing. rewrite sum_p_ok by exact H. reflexivity. Qed.
+
+Theorem gen_prunable_is_model (nch : nat) prof chs ns h p :
+  wf_node nch ns ->
+  map_get (NodeState_payments ns) h = Some p ->
+  sum_N (map_values (RoutedPayment_incoming p)) <= U64MAX ->
+  sum_N (map_values (RoutedPayment_outgoing p)) <= U64MAX ->
+  gen_NodeState_is_forwarded_payment_prunable prof h (NodeState_invoices ns) (NodeState_issued_invoices ns) p =
+  Val (prunable nch (abs_node chs ns) h && is_none_of (map_get (NodeState_issued_invoices ns) h)).
+Proof.
+  intros Hwf Hp Hi Ho. destruct (totals_some nch chs ns h p Hwf Hp) as [Ti To].
+  unfold gen_NodeState_is_forwarded_payment_prunable, prunable. rewrite Ti, To.
+  cbn [abs_node inv].
+  rewrite gen_is_no_incoming, gen_is_no_outgoing by assumption.
+  destruct (map_get (NodeState_invoices ns) h); cbn [option_map is_none_of andb bindT]; [reflexivity|].
+  destruct (map_get (NodeState_issued_invoices ns) h); cbn [is_none_of andb bindT].
+  - rewrite !andb_false_r. reflexivity.
+  - rewrite !andb_true_r.
+    destruct (sum_N (map_values (RoutedPayment_incoming p)) =? 0); cbn [bindT andb]; reflexivity.
+Qed.
+
+(** * htlc_fulfilled: the preimage is recorded only in a record that exists
+
+    The model's step [PFulfil h]: [pre x := pre x || ((x =? h) && known h)], nothing else changes.
+    The source (translated in state-passing style; [ph] is the hash of the preimage, an opaque
+    value of the translation) never panics when the record's sums fit and enforce_balance is off,
+    and the abstraction of the state it leaves is exactly that.  The issued-invoice flag and the
+    returned boolean are outside the model. *)
+Lemma map_get_insert {V} (m : list (N * V)) k v x :
+  map_get (map_insert m k v) x = if k =? x then Some v else map_get m x.
+Proof.
+  unfold map_insert. cbn [map_get]. destruct (k =? x) eqn:E; [reflexivity|].
+  unfold map_remove. induction m as [|[a w] r IH]; cbn [filter map_get fst]; [reflexivity|].
+  destruct (a =? k) eqn:E2; cbn [negb map_get].
+  - apply N.eqb_eq in E2. subst a. rewrite E. exact IH.
+  - destruct (a =? x); [reflexivity | exact IH].
+Qed.
+
+Theorem gen_fulfil_is_model prof swarn gp chs ph ns ch preimage vid :
+  CP.SimplePolicy_enforce_balance gp = false ->
+  (forall p, map_get (NodeState_payments ns) ph = Some p ->
+             sum_N (map_values (RoutedPayment_incoming p)) <= U64MAX /\
+             sum_N (map_values (RoutedPayment_outgoing p)) <= U64MAX) ->
+  exists ns' b,
+    gen_NodeState_htlc_fulfilled prof swarn gp ph ns ch preimage vid = Val (OkR (ns', b)) /\
+    (forall x, pre (abs_node chs ns') x = pre (abs_node chs ns) x || ((x =? ph) && known (abs_node chs ns) ph)) /\
+    (forall x, known (abs_node chs ns') x = known (abs_node chs ns) x) /\
+    (forall x c, led (abs_node chs ns') x c = led (abs_node chs ns) x c) /\
+    (forall x, inv (abs_node chs ns') x = inv (abs_node chs ns) x).
+Proof.
+  intros Henf Hfit. unfold gen_NodeState_htlc_fulfilled. cbv beta zeta.
+  unfold gen_enforce_balance. rewrite Henf.
+  (* the issued invoice: only its flag (and the returned boolean) moves *)
+  match goal with
+  | |- exists _ _, bindR ?F _ = _ /\ _ =>
+      assert (Hfirst : exists ns1 b1, F = Val (OkR (ns1, b1)) /\
+                         NodeState_invoices ns1 = NodeState_invoices ns /\ NodeState_payments ns1 = NodeState_payments ns)
+  end.
+  { destruct (map_get (NodeState_issued_invoices ns) ph) as [is|]; cbn [bindR];
+      [destruct (negb (PaymentState_is_fulfilled is)); cbn [bindR]|];
+      (eexists; eexists; split; [reflexivity | split; reflexivity]). }
+  destruct Hfirst as (ns1 & b1 & Hfirst & Hinv & Hpay). rewrite Hfirst. clear Hfirst. cbn [bindR].
+  assert (Habs : forall x, pre (abs_node chs ns1) x = pre (abs_node chs ns) x /\
+                           known (abs_node chs ns1) x = known (abs_node chs ns) x /\
+                           (forall c, led (abs_node chs ns1) x c = led (abs_node chs ns) x c) /\
+                           inv (abs_node chs ns1) x = inv (abs_node chs ns) x).
+  { intros x. cbn [abs_node pre known led inv]. unfold map_contains. rewrite Hinv, Hpay. repeat split. }
+  rewrite Hpay. destruct (map_get (NodeState_payments ns) ph) as [p|] eqn:Hp; cbn [bindR].
+  - destruct (Hfit p eq_refl) as [Fi Fo].
+    destruct (is_some_of (RoutedPayment_preimage p)) eqn:Epre; cbn [bindR].
+    + exists ns1, b1. split; [reflexivity|].
+      repeat split; intros x; destruct (Habs x) as (A & B & C & D); try assumption; try (intros c; apply C).
+      rewrite A. cbn [abs_node pre known]. unfold map_contains.
+      destruct (x =? ph) eqn:E; [|rewrite orb_false_r; reflexivity].
+      apply N.eqb_eq in E. subst x. rewrite Hp. cbn [is_some_of andb]. rewrite Epre. reflexivity.
+    + set (p' := mk_RoutedPayment (RoutedPayment_incoming p) (RoutedPayment_outgoing p)
+                   (RoutedPayment_incoming_cltv_min p) (RoutedPayment_outgoing_cltv_max p) (Some preimage)).
+      exists (mk_NodeState (NodeState_invoices ns1) (NodeState_issued_invoices ns1)
+                (map_insert (NodeState_payments ns1) ph p') (NodeState_excess_amount ns1) (NodeState_log_prefix ns1)
+                (NodeState_velocity_control ns1) (NodeState_fee_velocity_control ns1) (NodeState_last_summary ns1)
+                (NodeState_dbid_high_water_mark ns1) (NodeState_allowlist ns1)).
+      exists true. split.
+      { unfold gen_RoutedPayment_incoming_outgoing. rewrite !sum_p_ok by assumption.
+        cbn [bindT bindR]. cbv beta iota zeta.
+        destruct (map_contains (NodeState_invoices ns1) ph);
+          [destruct (0 <? sum_N (map_values (RoutedPayment_incoming p)))|]; reflexivity. }
+      rewrite Hinv, Hpay.
+      repeat split; intros x; cbn [abs_node pre known led inv NodeState_payments NodeState_invoices];
+        unfold map_contains; rewrite ?map_get_insert.
+      * rewrite (N.eqb_sym x ph). destruct (ph =? x) eqn:E.
+        -- apply N.eqb_eq in E. subst x. rewrite Hp. cbn [is_some_of RoutedPayment_preimage p' andb]. rewrite orb_true_r. reflexivity.
+        -- rewrite andb_false_l, orb_false_r. reflexivity.
+      * destruct (ph =? x) eqn:E; [|reflexivity]. apply N.eqb_eq in E. subst x. rewrite Hp. reflexivity.
+      * intros c. destruct (ph =? x) eqn:E; [|reflexivity]. apply N.eqb_eq in E. subst x. rewrite Hp. reflexivity.
+  - exists ns1, b1. split; [reflexivity|].
+    repeat split; intros x; destruct (Habs x) as (A & B & C & D); try assumption; try (intros c; apply C).
+    rewrite A. cbn [abs_node known]. unfold map_contains. rewrite Hp. cbn [is_some_of]. rewrite andb_false_r, orb_false_r. reflexivity.
+Qed.
+
+(** * NodeState::apply_payments
+
+    The source (translated in state-passing style) creates a record for every hash of the two
+    summaries and then books the channel's amounts into it with RoutedPayment::apply.  On the
+    abstraction this is the model's [apply_payments]: [known h := true] and
+    [led h ch := (incoming, outgoing)] for every hash, nothing else.  The issued-invoice marking in
+    between (and the dummy preimage under enforce_balance) is outside the model: the theorem is
+    stated for hashes without an issued invoice and with enforce_balance off, where that part does
+    nothing.  The hash set is visited twice in the order [ord hashes]; the result does not depend
+    on [ord]. *)
+Definition new_payment : RoutedPayment := mk_RoutedPayment [] [] None None None.
+
+Definition set_payments (ns : NodeState) (m : list (N * RoutedPayment)) : NodeState :=
+  mk_NodeState (NodeState_invoices ns) (NodeState_issued_invoices ns) m (NodeState_excess_amount ns)
+    (NodeState_log_prefix ns) (NodeState_velocity_control ns) (NodeState_fee_velocity_control ns)
+    (NodeState_last_summary ns) (NodeState_dbid_high_water_mark ns) (NodeState_allowlist ns).
+
+Definition ensure (ns : NodeState) (h : N) : NodeState :=
+  set_payments ns (map_insert (NodeState_payments ns) h
+                     (match map_get (NodeState_payments ns) h with Some v => v | None => new_payment end)).
+
+Definition apply_rec (p : RoutedPayment) (ch i o : N) (ic oc : option N) : RoutedPayment :=
+  mk_RoutedPayment (map_insert (RoutedPayment_incoming p) ch i) (map_insert (RoutedPayment_outgoing p) ch o)
+    (match ic with
+     | Some x => Some (match RoutedPayment_incoming_cltv_min p with Some e => N.min e x | None => x end)
+     | None => RoutedPayment_incoming_cltv_min p
+     end)
+    (match oc with
+     | Some x => Some (match RoutedPayment_outgoing_cltv_max p with Some e => N.max e x | None => x end)
+     | None => RoutedPayment_outgoing_cltv_max p
+     end)
+    (RoutedPayment_preimage p).
+
+Lemma gen_apply_rec prof p ch i o ic oc :
+  gen_RoutedPayment_apply prof p ch i o ic oc = Val (apply_rec p ch i o ic oc).
+Proof. destruct ic, oc; reflexivity. Qed.
+
+(** the CLTV bounds the third loop reads off the commitment for a hash *)
+Definition cltvs (ci : option CP.CommitmentInfo2) (h : N) : option N * option N :=
+  match ci with
+  | Some info =>
+      let '(inh, outh) :=
+        if CP.CommitmentInfo2_is_counterparty_broadcaster info
+        then (CP.CommitmentInfo2_offered_htlcs info, CP.CommitmentInfo2_received_htlcs info)
+        else (CP.CommitmentInfo2_received_htlcs info, CP.CommitmentInfo2_offered_htlcs info) in
+      (min_of (map (fun x => CP.HTLCInfo2_cltv_expiry x) (filter (fun x => CP.HTLCInfo2_payment_hash x =? h) inh)),
+       max_of (map (fun x => CP.HTLCInfo2_cltv_expiry x) (filter (fun x => CP.HTLCInfo2_payment_hash x =? h) outh)))
+  | None => (None, None)
+  end.
+
+Definition book (ch : N) (im om : list (N * N)) (ci : option CP.CommitmentInfo2) (ns : NodeState) (h : N) : NodeState :=
+  match map_get (NodeState_payments ns) h with
+  | Some p => set_payments ns (map_insert (NodeState_payments ns) h
+                                 (apply_rec p ch (get0 im h) (get0 om h) (fst (cltvs ci h)) (snd (cltvs ci h))))
+  | None => ns
+  end.
+
+Lemma fold_r_pure {S A} (body : S -> A -> trap (result S)) (f : S -> A -> S) (P : S -> Prop) l :
+  (forall s a, P s -> In a l -> body s a = Val (OkR (f s a)) /\ P (f s a)) ->
+  forall s, P s -> fold_r body l s = Val (OkR (fold_left f l s)) /\ P (fold_left f l s).
+Proof.
+  induction l as [|a r IH]; intros Hb s Hs; cbn [fold_r fold_left]; [split; [reflexivity | exact Hs]|].
+  destruct (Hb s a Hs (or_introl eq_refl)) as [E Ps]. rewrite E. cbn [bindR].
+  apply IH; [|exact Ps]. intros s' a' Hs' Ha'. apply Hb; [exact Hs' | right; exact Ha'].
+Qed.
+
+(** what the two folds leave in the payments map *)
+Lemma ensure_fold l : forall ns x,
+  NodeState_invoices (fold_left ensure l ns) = NodeState_invoices ns /\
+  NodeState_issued_invoices (fold_left ensure l ns) = NodeState_issued_invoices ns /\
+  map_get (NodeState_payments (fold_left ensure l ns)) x =
+  match map_get (NodeState_payments ns) x with
+  | Some v => Some v
+  | None => if existsb (N.eqb x) l then Some new_payment else None
+  end.
+Proof.
+  induction l as [|h r IH]; intros ns x; cbn [fold_left existsb].
+  - repeat split. destruct (map_get (NodeState_payments ns) x); reflexivity.
+  - destruct (IH (ensure ns h) x) as (A & B & C). rewrite A, B, C.
+    unfold ensure. cbn [set_payments NodeState_invoices NodeState_issued_invoices NodeState_payments].
+    repeat split. rewrite map_get_insert. rewrite (N.eqb_sym x h).
+    destruct (h =? x) eqn:E.
+    + apply N.eqb_eq in E. subst x. destruct (map_get (NodeState_payments ns) h); reflexivity.
+    + cbn [orb]. reflexivity.
+Qed.
+
+Lemma book_fold ch im om ci l : forall ns x,
+  NodeState_invoices (fold_left (book ch im om ci) l ns) = NodeState_invoices ns /\
+  (is_some_of (map_get (NodeState_payments (fold_left (book ch im om ci) l ns)) x) =
+   is_some_of (map_get (NodeState_payments ns) x)) /\
+  (forall p, map_get (NodeState_payments ns) x = Some p ->
+     exists p', map_get (NodeState_payments (fold_left (book ch im om ci) l ns)) x = Some p' /\
+       RoutedPayment_preimage p' = RoutedPayment_preimage p /\
+       forall c, (get0 (RoutedPayment_incoming p') c, get0 (RoutedPayment_outgoing p') c) =
+                 if existsb (N.eqb x) l && (c =? ch) then (get0 im x, get0 om x)
+                 else (get0 (RoutedPayment_incoming p) c, get0 (RoutedPayment_outgoing p) c)).
+Proof.
+  induction l as [|h r IH]; intros ns x; cbn [fold_left existsb].
+  - split; [reflexivity|]. split; [reflexivity|]. intros p Hp. exists p. split; [exact Hp|]. split; [reflexivity|]. intros c. reflexivity.
+  - destruct (IH (book ch im om ci ns h) x) as (A & B & C). rewrite A, B. clear A B.
+    unfold book at 1 2 3. destruct (map_get (NodeState_payments ns) h) as [ph|] eqn:Hh;
+      cbn [set_payments NodeState_invoices NodeState_payments].
+    + split; [reflexivity|]. split.
+      * rewrite map_get_insert. destruct (h =? x) eqn:E; [|reflexivity].
+        apply N.eqb_eq in E. subst x. rewrite Hh. reflexivity.
+      * intros p Hp.
+        assert (Hx : exists q, map_get (NodeState_payments (book ch im om ci ns h)) x = Some q /\
+                       RoutedPayment_preimage q = RoutedPayment_preimage p /\
+                       forall c, (get0 (RoutedPayment_incoming q) c, get0 (RoutedPayment_outgoing q) c) =
+                                 if (x =? h) && (c =? ch) then (get0 im x, get0 om x)
+                                 else (get0 (RoutedPayment_incoming p) c, get0 (RoutedPayment_outgoing p) c)).
+        { unfold book. rewrite Hh. cbn [set_payments NodeState_payments]. rewrite map_get_insert.
+          rewrite (N.eqb_sym x h). destruct (h =? x) eqn:E.
+          - apply N.eqb_eq in E. subst x. rewrite Hh in Hp. injection Hp as <-.
+            eexists. split; [reflexivity|]. split; [reflexivity|].
+            intros c. cbn [apply_rec RoutedPayment_incoming RoutedPayment_outgoing]. rewrite !get0_insert.
+            destruct (c =? ch); reflexivity.
+          - exists p. split; [exact Hp|]. split; [reflexivity|]. intros c. reflexivity. }
+        destruct Hx as (q & Hq & Hpre & Hled).
+        destruct (C q Hq) as (p' & Hp' & Hpre' & Hled'). exists p'. split; [exact Hp'|].
+        split; [congruence|]. intros c. rewrite Hled', Hled.
+        destruct (existsb (N.eqb x) r) eqn:Er; destruct (x =? h) eqn:Eh; destruct (c =? ch) eqn:Ec;
+          cbn [orb andb]; reflexivity.
+    + split; [reflexivity|]. split; [reflexivity|].
+      intros p Hp. destruct (C p) as (p' & Hp' & Hpre' & Hled').
+      { unfold book. rewrite Hh. exact Hp. }
+      exists p'. split; [exact Hp'|]. split; [exact Hpre'|]. intros c. rewrite Hled'.
+      destruct (x =? h) eqn:Eh; [|reflexivity].
+      apply N.eqb_eq in Eh. subst x. congruence.
+Qed.
+
+Lemma existsb_in x l : existsb (N.eqb x) l = true <-> In x l.
+Proof.
+  rewrite existsb_exists. split.
+  - intros (y & Hy & E). apply N.eqb_eq in E. subst y. exact Hy.
+  - intros H. exists x. split; [exact H | apply N.eqb_refl].
+Qed.
+
+Lemma existsb_same x l l' : (forall h, In h l <-> In h l') -> existsb (N.eqb x) l = existsb (N.eqb x) l'.
+Proof.
+  intros H. destruct (existsb (N.eqb x) l) eqn:E, (existsb (N.eqb x) l') eqn:E'; try reflexivity.
+  - apply existsb_in, H, existsb_in in E. congruence.
+  - apply existsb_in, H, existsb_in in E'. congruence.
+Qed.
+
+(** the model's fold in closed form *)
+Lemma model_apply_closed p nh nc ch l : forall k ld,
+  (forall x, fst (fold_left (apply_one p nh nc ch) l (k, ld)) x = k x || existsb (N.eqb x) l) /\
+  (forall x c, snd (fold_left (apply_one p nh nc ch) l (k, ld)) x c =
+               if existsb (N.eqb x) l && (c =? ch) then (in_val p nh nc x, out_val p nh nc x) else ld x c).
+Proof.
+  induction l as [|h r IH]; intros k ld; cbn [fold_left existsb].
+  - split; intros x; [rewrite orb_false_r; reflexivity | intros c; reflexivity].
+  - unfold apply_one at 2 4. cbn [fst snd].
+    destruct (IH (upd k h true) (upd ld h (upd (ld h) ch (in_val p nh nc h, out_val p nh nc h)))) as [A B].
+    split.
+    + intros x. rewrite A. unfold upd. destruct (x =? h); destruct (k x); reflexivity.
+    + intros x c. rewrite B. unfold upd.
+      destruct (existsb (N.eqb x) r); destruct (x =? h) eqn:Eh; destruct (c =? ch) eqn:Ec; cbn [orb andb];
+        try reflexivity; apply N.eqb_eq in Eh; subst x; reflexivity.
+Qed.
+
+Lemma fold_pair_fst {A} (f : NodeState -> A -> NodeState) (l : list A) : forall (s : NodeState) (fii : list N),
+  fold_left (fun (st : NodeState * list N) h => (f (fst st) h, snd st)) l (s, fii) = (fold_left f l s, fii).
+Proof. induction l as [|a r IH]; intros s fii; cbn [fold_left fst snd]; [reflexivity | apply IH]. Qed.
+
+Theorem gen_apply_payments_is_model prof swarn gp (ord : list N -> list N) dp chs ns ch im om bd vid ci nh nc :
+  (forall l, Permutation (ord l) l) ->
+  CP.SimplePolicy_enforce_balance gp = false ->
+  let hashes := set_extend (set_extend [] (map_keys im)) (map_keys om) in
+  (forall h, In h hashes -> map_get (NodeState_issued_invoices ns) h = None) ->
+  (forall h, hget im h = in_val (chs ch) nh nc h) ->
+  (forall h, hget om h = out_val (chs ch) nh nc h) ->
+  (forall h, In h hashes <-> In h (sum_keys (chs ch) nh nc)) ->
+  exists ns',
+    gen_NodeState_apply_payments prof swarn gp ord dp ns ch im om bd vid ci = Val (OkR ns') /\
+    let s' := apply_payments (abs_node chs ns) ch nh nc in
+    (forall x, known (abs_node chs ns') x = known s' x) /\
+    (forall x c, led (abs_node chs ns') x c = led s' x c) /\
+    (forall x, inv (abs_node chs ns') x = inv s' x) /\
+    (forall x, pre (abs_node chs ns') x = pre s' x).
+Proof.
+  intros Hord Henf hashes Hiss Hi Ho Hk.
+  set (l := ord hashes).
+  assert (Hl : forall h, In h l -> In h hashes)
+    by (intros h Hh; eapply Permutation_in; [apply Hord | exact Hh]).
+  assert (Hl' : forall h, In h hashes -> In h l)
+    by (intros h Hh; eapply Permutation_in; [apply Permutation_sym, Hord | exact Hh]).
+  set (ns1 := fold_left ensure l ns).
+  set (ns3 := fold_left (book ch im om ci) l ns1).
+  exists ns3. split.
+  - unfold gen_NodeState_apply_payments. cbv beta zeta. fold hashes. fold l.
+    unfold gen_enforce_balance. rewrite Henf.
+    (* the first loop: a record for every hash *)
+    match goal with
+    | |- bindR (fold_r ?B1 l (ns, [])) _ = _ =>
+        destruct (fold_r_pure B1 (fun st h => (ensure (fst st) h, snd st))
+                    (fun st => NodeState_issued_invoices (fst st) = NodeState_issued_invoices ns /\ snd st = []) l) with (s := (ns, @nil N)) as [E1 _]
+    end.
+    { intros [s fii] h [Ps Pf] Hin. cbn [fst snd] in *. subst fii. cbv beta iota zeta.
+      unfold gen_RoutedPayment_new. cbv beta zeta.
+      assert (Hnone : map_get (NodeState_issued_invoices s) h = None) by (rewrite Ps; apply Hiss, Hl, Hin).
+      destruct (map_get (NodeState_payments s) h) as [v|] eqn:Ev; cbn [bindT NodeState_issued_invoices];
+        rewrite Hnone; cbn [bindR]; unfold ensure, set_payments, new_payment; rewrite Ev; (split; [reflexivity | split; [exact Ps | reflexivity]]). }
+    { split; reflexivity. }
+    rewrite E1. clear E1. rewrite (fold_pair_fst ensure l ns []). fold ns1.
+    cbn [bindR fold_r bindT].
+    (* the third loop: the amounts are booked *)
+    match goal with
+    | |- bindR (fold_r ?B3 l ns1) _ = _ =>
+        destruct (fold_r_pure B3 (book ch im om ci)
+                    (fun st => forall h, In h l -> is_some_of (map_get (NodeState_payments st) h) = true) l) with (s := ns1) as [E3 _]
+    end.
+    { intros s h Ps Hin. cbv beta iota zeta.
+      pose proof (Ps h Hin) as Hsome. destruct (map_get (NodeState_payments s) h) as [p|] eqn:Ep; [|discriminate Hsome].
+      cbn [expect_some bindT].
+      assert (Hc : (match ci with
+                    | Some info =>
+                        t9 <- (if CP.CommitmentInfo2_is_counterparty_broadcaster info
+                               then Val (CP.CommitmentInfo2_offered_htlcs info, CP.CommitmentInfo2_received_htlcs info)
+                               else Val (CP.CommitmentInfo2_received_htlcs info, CP.CommitmentInfo2_offered_htlcs info)) ;;
+                        let '(incoming_htlcs, outgoing_htlcs) := t9 in
+                        Val (OkR (min_of (map (fun x => CP.HTLCInfo2_cltv_expiry x) (filter (fun x => CP.HTLCInfo2_payment_hash x =? h) incoming_htlcs)),
+                                  max_of (map (fun x => CP.HTLCInfo2_cltv_expiry x) (filter (fun x => CP.HTLCInfo2_payment_hash x =? h) outgoing_htlcs))))
+                    | None => Val (OkR (None, None))
+                    end) = Val (OkR (cltvs ci h))).
+      { unfold cltvs. destruct ci as [info|]; [|reflexivity].
+        destruct (CP.CommitmentInfo2_is_counterparty_broadcaster info); reflexivity. }
+      rewrite Hc. cbn [bindR]. destruct (cltvs ci h) as [ic oc] eqn:Ecl.
+      rewrite gen_apply_rec. cbn [bindT].
+      split.
+      - unfold book. rewrite Ep, Ecl. reflexivity.
+      - intros h' Hh'. destruct (book_fold ch im om ci [h] s h') as (_ & B & _). cbn [fold_left] in B.
+        rewrite B. apply Ps, Hh'. }
+    { intros h Hh. subst ns1. destruct (ensure_fold l ns h) as (_ & _ & C). rewrite C.
+      destruct (map_get (NodeState_payments ns) h); [reflexivity|].
+      replace (existsb (N.eqb h) l) with true by (symmetry; apply existsb_in; exact Hh). reflexivity. }
+    rewrite E3. reflexivity.
+  - (* the abstraction of the state left behind is the model's apply_payments *)
+    cbv zeta. unfold apply_payments. change (chans (abs_node chs ns) ch) with (chs ch).
+    destruct (model_apply_closed (chs ch) nh nc ch (sum_keys (chs ch) nh nc)
+                (known (abs_node chs ns)) (led (abs_node chs ns))) as [MK ML].
+    destruct (fold_left (apply_one (chs ch) nh nc ch) (sum_keys (chs ch) nh nc)
+                (known (abs_node chs ns), led (abs_node chs ns))) as [k' l'] eqn:EF.
+    cbn [fst snd] in MK, ML. cbv beta iota. cbn [known led inv pre].
+    assert (Hex : forall x, existsb (N.eqb x) l = existsb (N.eqb x) (sum_keys (chs ch) nh nc)).
+    { intros x. apply existsb_same. intros h. rewrite <- Hk. split; [apply Hl | apply Hl']. }
+    assert (H1 : forall x, NodeState_invoices ns3 = NodeState_invoices ns /\
+                 map_get (NodeState_payments ns1) x =
+                 match map_get (NodeState_payments ns) x with
+                 | Some v => Some v
+                 | None => if existsb (N.eqb x) l then Some new_payment else None
+                 end).
+    { intros x. subst ns3 ns1. destruct (book_fold ch im om ci l (fold_left ensure l ns) x) as (A & _ & _).
+      destruct (ensure_fold l ns x) as (A' & _ & C'). split; [congruence | exact C']. }
+    repeat split.
+    + (* known *)
+      intros x. rewrite MK. cbn [abs_node known]. unfold map_contains.
+      destruct (book_fold ch im om ci l ns1 x) as (_ & B & _). fold ns3 in B. rewrite B.
+      destruct (H1 x) as [_ C]. rewrite C, <- Hex.
+      destruct (map_get (NodeState_payments ns) x); [reflexivity|].
+      destruct (existsb (N.eqb x) l); reflexivity.
+    + (* the ledger *)
+      intros x c. rewrite ML, <- Hex, <- Hi, <- Ho, !hget_get0. cbn [abs_node led].
+      destruct (H1 x) as [_ C].
+      destruct (book_fold ch im om ci l ns1 x) as (_ & B & D). fold ns3 in B, D.
+      destruct (map_get (NodeState_payments ns1) x) as [p1|] eqn:E1.
+      * destruct (D p1 eq_refl) as (p' & Hp' & _ & Hled). rewrite Hp', Hled.
+        destruct (map_get (NodeState_payments ns) x) as [p0|] eqn:E0.
+        -- injection C as ->. reflexivity.
+        -- destruct (existsb (N.eqb x) l); [|discriminate C]. injection C as ->.
+           destruct (c =? ch); reflexivity.
+      * cbn [is_some_of] in B.
+        destruct (map_get (NodeState_payments ns3) x); [discriminate B|].
+        destruct (map_get (NodeState_payments ns) x); [discriminate C|].
+        destruct (existsb (N.eqb x) l); [discriminate C|]. reflexivity.
+    + (* invoices *)
+      intros x. destruct (H1 x) as [A _]. cbn [abs_node inv]. rewrite A. reflexivity.
+    + (* preimages *)
+      intros x. cbn [abs_node pre].
+      destruct (H1 x) as [_ C].
+      destruct (book_fold ch im om ci l ns1 x) as (_ & B & D). fold ns3 in B, D.
+      destruct (map_get (NodeState_payments ns1) x) as [p1|] eqn:E1.
+      * destruct (D p1 eq_refl) as (p' & Hp' & Hpre & _). rewrite Hp', Hpre.
+        destruct (map_get (NodeState_payments ns) x) as [p0|].
+        -- injection C as ->. reflexivity.
+        -- destruct (existsb (N.eqb x) l); [|discriminate C]. injection C as ->. reflexivity.
+      * cbn [is_some_of] in B.
+        destruct (map_get (NodeState_payments ns3) x); [discriminate B|].
+        destruct (map_get (NodeState_payments ns) x); [discriminate C | reflexivity].
+Qed.
